@@ -42,12 +42,11 @@ def check(ctx):
         ctx.analysed(f)
 
         def r45(f=f):
-            # parameters by position: (communicator, result, buffer, in_buffer, total_calls)
-            if len(f.params) != 5:
-                raise AnalysisBroken('allreduce_result does not have its five parameters')
-            R = sym(f.params[1].name)
-            INB = sym(f.params[3].name)
-            TOT = sym(f.params[4].name)
+            # parameters by type: (communicator, result, buffer, in_buffer, total_calls) in any order
+            roles = allreduce_roles(p)
+            R = sym(roles['result'][1])
+            INB = sym(roles['inb'][1])
+            TOT = sym(roles['total'][1])
             n0 = T.size(INB)
             dists = fld(R, 'distributions_')
             s, ex = summarise(p, f, opaque={'hep::mpi_datatype'})
@@ -66,11 +65,14 @@ def check(ctx):
             for e in mpis:
                 a = e['args']
                 lvp = a[1]
+                if isinstance(lvp, tuple) and lvp[0] == 'iter' and lvp[2] == ZERO and SX.is_lv(lvp[1]):
+                    bufs.append(lvp[1])      # vector.data()
+                    continue
                 if not (isinstance(lvp, tuple) and lvp[0] == 'ptr' and lvp[1] and lvp[1][2] and lvp[1][2][-1] == ('i', ZERO)):
                     raise AnalysisBroken('receive buffer argument of MPI_Allreduce is not &vector[0]')
                 bufs.append(('lv', lvp[1][1], lvp[1][2][:-1]))
             # values of the two buffers when they are reduced
-            bterm = ex.param_value(s, f.params[2].name)
+            bterm = ex.param_value(s, roles['out'][1])
             red = [t for t in T.subterms(bterm) if isinstance(t, tuple) and t and t[0] == 'allreduce']
             sred = [t for t in T.subterms(s.ret) if isinstance(t, tuple) and t and t[0] == 'allreduce']
             packs = {}
@@ -337,16 +339,18 @@ def check(ctx):
                 a = ae['args']
                 Nk = sel(calls_list_term(d), ls.idx)
                 kres = ('hcall', kern) + tuple(ke['args'])
-                ok6 = a[-1] == Nk and a[1] == kres
+                roles = allreduce_roles(p)
+                a_tot, a_res = a[roles['total'][0]], a[roles['result'][0]]
+                ok6 = a_tot == Nk and a_res == kres
                 if ok6:
                     ctx.holds('R6.reduced_result', '%s:%s' % (ae['where'], base), 'the local result of this rank is '
                               'reduced with the TOTAL number of calls of the iteration')
                 else:
                     ctx.violation('R6.reduced_result', '%s:%s' % (ae['where'], base), 'the reduction is not fed '
                                   'with this rank\'s result and the total number of calls',
-                                  {'total_calls': T.pretty(a[-1])[:120], 'result': T.pretty(a[1])[:160]})
+                                  {'total_calls': T.pretty(a_tot)[:120], 'result': T.pretty(a_res)[:160]})
                 if name != 'hep::mpi_plain':
-                    inb = a[3]
+                    inb = a[roles['inb'][0]]
                     if inb == fld(kres, 'adjustment_data_'):
                         ctx.holds('R6.adjustment_reduced', '%s:%s' % (ae['where'], base), 'the local adjustment data '
                                   'are reduced along with the sums')
